@@ -2,6 +2,7 @@ import Ts.Model.Packet
 import Ts.Spec.Bits
 import Ts.Lemmas.BitOps
 import Ts.Gen.Consts
+import Ts.Lemmas.RevC
 /-!
 # C12 — transport packet header fields and payload / adaptation-field split are exact
 
@@ -9,9 +10,22 @@ For every 188-byte packet: each fixed-header accessor of the model (byte masks a
 `packet.rs:563-616`) equals the `uimsbf` field of ISO/IEC 13818-1 2.4.3.2 at its bit offset, and
 `adaptation_field()` / `payload()` equal the table over (adaptation_field_control, length).
 All results are `R.ok`: no accessor panics.
+
+Readings and scope (review C):
+* The model's `afRange` / `payloadRange` return `(offset, length)` pairs; `mkAf_slice` /
+  `mkPayload_slice` show each pair denotes exactly the slice the code takes (`&buf[5..5+len]`,
+  `&buf[offset..]`), and `af_bytes` / `payload_bytes` restate the split on the byte strings
+  `Packet.af` / `Packet.payload` return.
+* `splitSpec` (the table below) is the specification of the split; it lives in this file, not under
+  `Ts/Spec/`.  Its thresholds 182 / 183 are literals of the model too (`Packet.lean:56,61`);
+  `tie_af_max_model` / `tie_af_only_len` relate them to the regenerated constants behaviourally.
+* `Packet::try_new` is covered (`tryNew_exact`); `Packet::new` (which *asserts* the sync byte) is
+  not modelled.
+* adaptation_field_control = '00' is reserved by the standard; the code (and `splitSpec`) yield
+  neither an adaptation field nor a payload for it.
 -/
 namespace Ts.Props.C12
-open Ts Ts.Packet Ts.Spec
+open Ts Ts.Packet Ts.Spec Ts.Lemmas.RevC
 
 /-! ### ties to the constants regenerated from `/repo/src/packet.rs` -/
 theorem tie_packet_size : Ts.Gen.packetSize = SIZE := by decide
@@ -193,9 +207,267 @@ theorem split_sound (haf hp : Bool) (L : Nat) :
     · intro b; split <;> simp; rename_i h; intro e; subst e; simp; omega
     · intro a b; split <;> split <;> simp; rename_i h1 h2; intro e1 e2; subst e1 e2; simp
 
+
+/-- adjacency (sharper than `split_sound`'s `≤`): when both parts exist the field is bytes
+`5 .. 5+L` and the payload starts exactly where it ends and runs to byte 188; a field without payload
+is bytes `5 .. 188`; a payload without field starts at byte 4 (no adaptation field) or at byte 5
+(adaptation field of length 0, i.e. only its length byte) -/
+theorem split_adjacent (haf hp : Bool) (L : Nat) :
+    let s := splitSpec haf hp L
+    (∀ a b, s.1 = some a → s.2 = some b → a.1 = 5 ∧ a.2 = L ∧ b.1 = a.1 + a.2 ∧ b.1 + b.2 = 188) ∧
+    (∀ a, s.1 = some a → s.2 = none → a = (5, 183) ∧ a.1 + a.2 = 188) ∧
+    (∀ b, s.1 = none → s.2 = some b → (b = (4, 184) ∧ haf = false) ∨ (b = (5, 183) ∧ haf = true ∧ L = 0)) := by
+  cases haf <;> cases hp <;> simp only [splitSpec]
+  · simp
+  · simp
+  · refine ⟨by simp, ?_, by simp⟩
+    intro a; split <;> simp; intro e; subst e; simp
+  · refine ⟨?_, ?_, ?_⟩
+    · intro a b; split <;> split <;> simp
+      intro e1 e2; subst e1 e2; simp; omega
+    · intro a; split <;> split <;> simp
+      omega
+    · intro b; split <;> split <;> simp
+      rename_i h1 h2
+      intro e; subst e
+      have : L = 0 := by omega
+      subst this; simp
+
+/-! ### `Packet::try_new` -/
+
+/-- `Packet::try_new` on a 188-byte buffer: no panic; `Some` exactly when sync_byte (bits 0..8) is
+0x47.  (`Packet::new`, which asserts the sync byte instead, is not modelled.) -/
+theorem tryNew_exact (buf : Bytes) (h : buf.length = 188) :
+    tryNew buf = .ok (if readBits buf 0 8 = 0x47 then some buf else none) := by
+  unfold tryNew assertR SIZE SYNC_BYTE
+  have r := readBits_byte buf 0
+  simp only [Nat.mul_zero] at r
+  rw [r, byteAt_ok buf 0 (by omega)]
+  by_cases hs : byteD buf 0 = 0x47 <;> simp [h, hs]
+
+/-- any other length trips `assert_eq!(buf.len(), Self::SIZE)` -/
+theorem tryNew_wrong_length (buf : Bytes) (h : buf.length ≠ 188) :
+    tryNew buf = .panic "assert_eq!(buf.len(), Self::SIZE)" := by
+  unfold tryNew assertR SIZE
+  simp [h]
+
+/-! ### the ranges are the slices the code takes
+
+The model's `mkAf` / `mkPayload` evaluate the code's slice expression (for its panics) and then
+return an `(offset, length)` pair written by hand.  These two theorems (any `p`, any length) show
+the pair denotes exactly that slice. -/
+
+/-- `mk_af`: whenever it returns a range `r`, `r = (5, len)`, the bytes of `r` are the slice
+`&buf[5..5+len]` the code passes to `AdaptationField::new`, and they are non-empty -/
+theorem mkAf_slice (p : Bytes) (L : Nat) (r : Nat × Nat) (h : mkAf p L = .ok r) :
+    r = (5, L) ∧ sliceR p 5 (5 + L) = .ok (rangeBytes p r) ∧ rangeBytes p r ≠ [] := by
+  unfold mkAf ADAPTATION_FIELD_OFFSET FIXED_HEADER_SIZE at h
+  cases hs : sliceR p (4 + 1) (4 + 1 + L) with
+  | panic s => rw [hs] at h; cases h
+  | ok s =>
+    rw [hs] at h
+    simp only [R.ok_bind] at h
+    have hs' : s = (p.drop 5).take L := by
+      unfold sliceR at hs
+      split at hs
+      · cases hs
+      · split at hs
+        · cases hs
+        · injection hs with hs; rw [← hs]; congr 1; omega
+    cases he : s.isEmpty with
+    | true => rw [he] at h; cases h
+    | false =>
+      rw [he] at h
+      simp only [assertR, Bool.not_false, if_true, R.ok_bind, R.pure_eq] at h
+      injection h with h
+      subst h
+      refine ⟨rfl, ?_, ?_⟩
+      · rw [hs']; rfl
+      · show (p.drop 5).take L ≠ []
+        rw [← hs']; intro e; rw [e] at he; cases he
+
+/-- `mk_payload`: whenever it returns a range `r`, `r = (offset, len - offset)` for the
+`content_offset()` the code computed, `offset < len`, and the bytes of `r` are the slice
+`&buf[offset..]` the code returns -/
+theorem mkPayload_slice (p : Bytes) (r : Nat × Nat) (h : mkPayload p = .ok (some r)) :
+    ∃ off, contentOffset p = .ok off ∧ off < p.length ∧ r = (off, p.length - off)
+      ∧ sliceFrom p off = .ok (rangeBytes p r) ∧ rangeBytes p r = p.drop off := by
+  unfold mkPayload at h
+  cases ho : contentOffset p with
+  | panic s => rw [ho] at h; cases h
+  | ok off =>
+    rw [ho] at h
+    simp only [R.ok_bind] at h
+    by_cases h1 : off = p.length
+    · simp [h1] at h
+    · by_cases h2 : off > p.length
+      · have : (off == p.length) = false := by simp [h1]
+        simp [this, h2] at h
+      · have e1 : (off == p.length) = false := by simp [h1]
+        simp only [e1, Bool.false_eq_true, if_false, h2] at h
+        rw [sliceFrom_ok p off (by omega)] at h
+        simp only [R.ok_bind, R.pure_eq] at h
+        injection h with h; injection h with h
+        subst h
+        have e : rangeBytes p (off, p.length - off) = p.drop off := by
+          unfold rangeBytes
+          exact List.take_of_length_le (by simp)
+        exact ⟨off, rfl, by omega, rfl, by rw [e]; exact sliceFrom_ok p off (by omega), e⟩
+
+/-- the split on byte strings: the table `splitSpec` with the bytes each range denotes -/
+def splitBytes (p : Bytes) (haf hp : Bool) (L : Nat) : Option Bytes × Option Bytes :=
+  match haf, hp with
+  | false, false => (none, none)
+  | false, true => (none, some (p.drop 4))
+  | true, false => (if L = 183 then some ((p.drop 5).take L) else none, none)
+  | true, true => (if 1 ≤ L ∧ L ≤ 182 then some ((p.drop 5).take L) else none,
+                   if L ≤ 182 then some (p.drop (5 + L)) else none)
+
+/-- `Packet::adaptation_field()` as bytes, for every 188-byte packet: the `L =
+adaptation_field_length` bytes that follow the length byte (byte 4), when the table allows a field -/
+theorem af_bytes (p : Bytes) (h : p.length = 188) :
+    Packet.af p = .ok (splitBytes p (hasAf (byteD p 3)) (hasPayload (byteD p 3)) (byteD p 4)).1 := by
+  unfold Packet.af
+  rw [af_exact p h]
+  cases hasAf (byteD p 3) <;> cases hasPayload (byteD p 3) <;>
+    simp only [splitSpec, splitBytes, R.ok_bind, R.pure_eq]
+  · by_cases hl : byteD p 4 = 183
+    · simp only [hl, if_true]; rfl
+    · simp only [hl, if_false]
+  · by_cases hl : 1 ≤ byteD p 4 ∧ byteD p 4 ≤ 182
+    · simp only [hl, and_self, if_true]; rfl
+    · simp only [hl, if_false]
+
+/-- `Packet::payload()` as bytes, for every 188-byte packet: everything from the content offset
+(4, or `5 + L`) to the end of the packet, when the table allows a payload -/
+theorem payload_bytes (p : Bytes) (h : p.length = 188) :
+    Packet.payload p
+      = .ok (splitBytes p (hasAf (byteD p 3)) (hasPayload (byteD p 3)) (byteD p 4)).2 := by
+  unfold Packet.payload
+  rw [payload_exact p h]
+  cases hasAf (byteD p 3) <;> cases hasPayload (byteD p 3) <;>
+    simp only [splitSpec, splitBytes, R.ok_bind, R.pure_eq]
+  · congr 2
+    unfold rangeBytes
+    exact List.take_of_length_le (by simp; omega)
+  · by_cases hl : byteD p 4 ≤ 182
+    · simp only [hl, if_true]
+      congr 2
+      unfold rangeBytes
+      exact List.take_of_length_le (by simp; omega)
+    · simp only [hl, if_false]
+
+/-- whatever `adaptation_field()` hands out is non-empty and has exactly
+`adaptation_field_length` (1..=183) bytes: this discharges the hypothesis `buf ≠ []` of every C13
+theorem for adaptation fields obtained from a packet -/
+theorem af_nonempty (p : Bytes) (h : p.length = 188) (a : Bytes) (ha : Packet.af p = .ok (some a)) :
+    a ≠ [] ∧ a.length = byteD p 4 ∧ 1 ≤ byteD p 4 ∧ byteD p 4 ≤ 183 := by
+  rw [af_bytes p h] at ha
+  injection ha with ha
+  revert ha
+  cases hasAf (byteD p 3) <;> cases hasPayload (byteD p 3) <;> simp only [splitBytes] <;> intro ha
+  · cases ha
+  · cases ha
+  · by_cases hl : byteD p 4 = 183
+    · simp only [hl, if_true] at ha
+      injection ha with ha
+      have hlen : a.length = 183 := by rw [← ha]; simp; omega
+      refine ⟨?_, by rw [hlen, hl], by omega, by omega⟩
+      intro e; rw [e] at hlen; cases hlen
+    · simp only [hl, if_false] at ha; cases ha
+  · by_cases hl : 1 ≤ byteD p 4 ∧ byteD p 4 ≤ 182
+    · simp only [hl, and_self, if_true] at ha
+      injection ha with ha
+      have hlen : a.length = byteD p 4 := by rw [← ha]; simp; omega
+      refine ⟨?_, hlen, hl.1, by omega⟩
+      intro e; rw [e] at hlen; simp at hlen; omega
+    · simp only [hl, if_false] at ha; cases ha
+
+/-! ### behavioural ties of the model's literal thresholds to the regenerated constants
+
+`afRange` compares against the literal `182` (`Packet.lean:56`) and against
+`SIZE - ADAPTATION_FIELD_OFFSET`; a literal inside a definition cannot be equated with a constant
+by `decide`, so the tie is stated on the behaviour: were the model's literal different from
+`Ts.Gen.afMaxWithPayload`, one of the clauses below would be false at `L = 182` or `L = 183`. -/
+
+theorem tie_af_only_len :
+    Ts.Gen.packetSize - (Ts.Gen.fixedHeaderSize + 1) = 183 ∧ SIZE - ADAPTATION_FIELD_OFFSET = 183 := by
+  decide
+
+/-- for adaptation_field_control = '11': lengths above the regenerated `afMaxWithPayload` give
+neither part, lengths `1 ..= afMaxWithPayload` give the field, lengths `≤ afMaxWithPayload` give
+the payload `5+L .. packetSize` -/
+theorem tie_af_max_model (p : Bytes) (h : p.length = 188)
+    (haf : hasAf (byteD p 3) = true) (hp : hasPayload (byteD p 3) = true) :
+    (byteD p 4 > Ts.Gen.afMaxWithPayload → afRange p = .ok none ∧ payloadRange p = .ok none) ∧
+    (1 ≤ byteD p 4 → byteD p 4 ≤ Ts.Gen.afMaxWithPayload → afRange p = .ok (some (5, byteD p 4))) ∧
+    (byteD p 4 ≤ Ts.Gen.afMaxWithPayload →
+      payloadRange p = .ok (some (5 + byteD p 4, Ts.Gen.packetSize - 5 - byteD p 4))) := by
+  rw [af_exact p h, payload_exact p h, haf, hp]
+  simp only [splitSpec, Ts.Gen.afMaxWithPayload, Ts.Gen.packetSize]
+  refine ⟨?_, ?_, ?_⟩
+  · intro hl
+    have h2 : ¬ (byteD p 4 ≤ 182) := by omega
+    simp [h2]
+  · intro h1 h2; simp [h2]; omega
+  · intro h2; simp only [h2, if_true]
+
 /-! ### non-vacuity -/
 example : (List.replicate 188 (0x47 : UInt8)).length = 188 := List.length_replicate ..
 example : splitSpec true true 7 = (some (5, 7), some (12, 176)) := by decide
 example : splitSpec true false 183 = (some (5, 183), none) := by decide
+
+/-! #### the MODEL evaluated on concrete 188-byte packets (kernel evaluation), one group per
+adaptation_field_control value, with the boundary lengths 0, 1, 182, 183, 184 -/
+
+/-- a 188-byte packet whose byte `i` has the value `i` for `i ≥ 5` (so that a returned byte string
+shows where it was taken from): sync 0x47, PUSI set, PID 0x0100, then byte 3 (scrambling /
+adaptation_field_control / continuity counter) and byte 4 (adaptation_field_length) as given -/
+def exPkt (b3 b4 : UInt8) : Bytes :=
+  [0x47, 0x41, 0x00, b3, b4] ++ (List.range 183).map (fun i => UInt8.ofNat (i + 5))
+
+example : (exPkt 0x30 7).length = 188 := by decide +kernel
+example : tryNew (exPkt 0x30 7) = .ok (some (exPkt 0x30 7)) := ok_of_okVal (by decide +kernel)
+/-- a wrong sync byte is refused without panic; a wrong length panics -/
+example : tryNew (0x48 :: (exPkt 0x30 7).drop 1) = .ok none := ok_of_okVal (by decide +kernel)
+example : tryNew [0x47, 0x00] = .panic "assert_eq!(buf.len(), Self::SIZE)" := by rfl
+
+/-! adaptation_field_control = '00' (reserved): neither part -/
+example : afRange (exPkt 0x00 7) = .ok none ∧ payloadRange (exPkt 0x00 7) = .ok none := ⟨ok_of_okVal (by decide +kernel), ok_of_okVal (by decide +kernel)⟩
+/-! '01' payload only: bytes 4..188 (byte 4 is payload, not a length) -/
+example : afRange (exPkt 0x10 7) = .ok none ∧ payloadRange (exPkt 0x10 7) = .ok (some (4, 184)) :=
+  ⟨ok_of_okVal (by decide +kernel), ok_of_okVal (by decide +kernel)⟩
+example : Packet.payload (exPkt 0x10 7) = .ok (some ((exPkt 0x10 7).drop 4)) := ok_of_okVal (by decide +kernel)
+/-! '10' adaptation field only: accepted exactly for length 183 -/
+example : afRange (exPkt 0x20 183) = .ok (some (5, 183)) ∧ payloadRange (exPkt 0x20 183) = .ok none :=
+  ⟨ok_of_okVal (by decide +kernel), ok_of_okVal (by decide +kernel)⟩
+example : afRange (exPkt 0x20 182) = .ok none ∧ afRange (exPkt 0x20 184) = .ok none
+    ∧ afRange (exPkt 0x20 0) = .ok none := ⟨ok_of_okVal (by decide +kernel), ok_of_okVal (by decide +kernel), ok_of_okVal (by decide +kernel)⟩
+/-! '11' both: length 0 (no field, 183 payload bytes), 1, 7, 182 (one payload byte),
+183 (neither: the field would leave no payload), 184 (neither) -/
+example : afRange (exPkt 0x30 0) = .ok none ∧ payloadRange (exPkt 0x30 0) = .ok (some (5, 183)) :=
+  ⟨ok_of_okVal (by decide +kernel), ok_of_okVal (by decide +kernel)⟩
+example : afRange (exPkt 0x30 1) = .ok (some (5, 1)) ∧ payloadRange (exPkt 0x30 1) = .ok (some (6, 182)) :=
+  ⟨ok_of_okVal (by decide +kernel), ok_of_okVal (by decide +kernel)⟩
+example : afRange (exPkt 0x30 7) = .ok (some (5, 7)) ∧ payloadRange (exPkt 0x30 7) = .ok (some (12, 176)) :=
+  ⟨ok_of_okVal (by decide +kernel), ok_of_okVal (by decide +kernel)⟩
+example : afRange (exPkt 0x30 182) = .ok (some (5, 182))
+    ∧ payloadRange (exPkt 0x30 182) = .ok (some (187, 1)) := ⟨ok_of_okVal (by decide +kernel), ok_of_okVal (by decide +kernel)⟩
+example : afRange (exPkt 0x30 183) = .ok none ∧ payloadRange (exPkt 0x30 183) = .ok none :=
+  ⟨ok_of_okVal (by decide +kernel), ok_of_okVal (by decide +kernel)⟩
+example : afRange (exPkt 0x30 184) = .ok none ∧ payloadRange (exPkt 0x30 184) = .ok none :=
+  ⟨ok_of_okVal (by decide +kernel), ok_of_okVal (by decide +kernel)⟩
+/-! the bytes: the field is bytes 5..5+L, the payload everything after it -/
+example : Packet.af (exPkt 0x30 3) = .ok (some [5, 6, 7]) := ok_of_okVal (by decide +kernel)
+example : Packet.payload (exPkt 0x30 180) = .ok (some [185, 186, 187]) := ok_of_okVal (by decide +kernel)
+example : Packet.payload (exPkt 0x30 182) = .ok (some [187]) := ok_of_okVal (by decide +kernel)
+/-! hypotheses of `mkAf_slice`, `mkPayload_slice`, `af_nonempty`, `tie_af_max_model` are satisfiable -/
+example : mkAf (exPkt 0x30 7) 7 = .ok (5, 7) ∧ mkPayload (exPkt 0x30 7) = .ok (some (12, 176)) :=
+  ⟨ok_of_okVal (by decide +kernel), ok_of_okVal (by decide +kernel)⟩
+example : hasAf (byteD (exPkt 0x30 7) 3) = true ∧ hasPayload (byteD (exPkt 0x30 7) 3) = true
+    ∧ byteD (exPkt 0x30 7) 4 = 7 := by decide +kernel
+/-! the fixed-header accessors on the same packet -/
+example : pid (exPkt 0x30 7) = .ok 0x0100 ∧ pusi (exPkt 0x30 7) = .ok true ∧ tei (exPkt 0x30 7) = .ok false
+    ∧ cc (exPkt 0x3A 7) = .ok 10 := ⟨ok_of_okVal (by decide +kernel), ok_of_okVal (by decide +kernel), ok_of_okVal (by decide +kernel), ok_of_okVal (by decide +kernel)⟩
 
 end Ts.Props.C12
